@@ -67,7 +67,9 @@ def run(check, prog):
     from . import c01
     c01.f6_copy_metadata(check, prog)
     center_priors(check, prog)
+    center_priors_structure(check, prog)
     subimage(check, prog)
+    bg_correct_guards(check, prog)
 
 
 def returns(check, prog):
@@ -326,13 +328,150 @@ def subimage(check, prog):
                   'arr.isel(x=extent[0], y=extent[1]): retained pixels keep their values '
                   '(and xarray keeps their coordinates)', loc,
                   fail_detail='returns %s' % show(v)[:200])
-    sl = [x for x in subterms(v) if x[0] == 'call' and x[1] == 'slice']
+    # the extents: for axis i the half-open pixel range
+    # [round(c_i - s_i/2), round(c_i + s_i/2)) with c the rounded centre
+    arr_, cen_, shp_ = [sym(a.arg) for a in fd.args.args[:3]]
     c0 = Canon()
     ok2 = False
-    for s in sl:
-        if len(s[2]) == 2:
-            lo, hi = s[2]
-            e = [x for x in subterms(lo) if x[0] == 'elem']
-            ok2 = bool(calls_in(lo, 'numpy.round')) and bool(calls_in(hi, 'numpy.round'))
+    detail = ''
+    if ok:
+        comp = ex[1]
+        if comp[0] == 'call' and comp[1] == 'list' and len(comp[2]) == 1:
+            comp = comp[2][0]
+        ok2 = comp[0] == 'comp' and len(comp[3]) == 1 and comp[2][0] == 'call' and \
+            comp[2][1] == 'slice' and len(comp[2][2]) == 2
+        if ok2:
+            z = comp[3][0][1]
+            lid = comp[3][0][0][2] if comp[3][0][0][0] == 'elem' else None
+            cterm = intern(('call', ('attr', ('call', 'numpy.round', (cen_,), ()),
+                                     'astype'), (('extref', 'int'),), ()))
+            okz = z[0] == 'call' and z[1] == 'zip' and len(z[2]) == 2 and \
+                z[2][0] == cterm and any(x == shp_ for x in subterms(z[2][1]))
+            c_i = intern(('elem', z[2][0], lid)) if okz else None
+            s_i = intern(('elem', z[2][1], lid)) if okz else None
+            lo, hi = comp[2][2]
+
+            def rounded_int(t):
+                if t[0] == 'call' and t[1] == 'int' and len(t[2]) == 1 and \
+                        t[2][0][0] == 'call' and t[2][0][1] == 'numpy.round':
+                    return t[2][0][2][0]
+                return None
+            lo_i, hi_i = rounded_int(lo), rounded_int(hi)
+            ok2 = okz and lo_i is not None and hi_i is not None and \
+                c0.equal(lo_i, intern(('bin', '-', c_i, ('bin', '/', s_i, num(2))))) and \
+                c0.equal(hi_i, intern(('bin', '+', c_i, ('bin', '/', s_i, num(2)))))
+            detail = 'slice(%s, %s)' % (show(lo)[:80], show(hi)[:80])
     check.require(ok2, 'T7-subimage', 'subimage extents',
-                  'slice(round(c - s/2), round(c + s/2)) per axis', loc)
+                  'axis i keeps pixels [round(c_i - s_i/2), round(c_i + s_i/2)) with c '
+                  'the rounded centre and (c_i, s_i) paired axis by axis', loc,
+                  fail_detail=detail)
+
+
+def center_priors_structure(check, prog):
+    """make_center_priors: x and y get Gaussians centred on the found centre
+    (mean <- centre_i, width <- pixel uncertainty * spacing_i), z a Uniform over
+    the requested range."""
+    q = 'holopy.core.prior.make_center_priors'
+    fd = prog.func(q)
+    loc = prog.loc(q, fd)
+    P = {a.arg: sym(a.arg) for a in fd.args.args}
+    it = Interp(prog, max_depth=1, inline_new=False, opaque=[
+        MD + 'get_extents', MD + 'get_spacing',
+        'holopy.core.process.centerfinder.center_find'])
+    v = it.analyze(q).ret
+    c0 = Canon()
+    ok = v[0] == 'bin' and v[1] == '+' and v[3][0] == 'list' and len(v[3][1]) == 1
+    detail = 'returns %s' % show(v)[:160]
+    if ok:
+        xy, zp = v[2], v[3][1][0]
+        if xy[0] == 'call' and xy[1] == 'list' and len(xy[2]) == 1:
+            xy = xy[2][0]
+        ok = xy[0] == 'comp' and xy[2][0] == 'new' and xy[2][1].endswith('Gaussian')
+        if ok:
+            g = dict(xy[2][3])
+            mu, sd = g.get('mu'), g.get('sd')
+            sp = intern(('call', MD + 'get_spacing', (P['im'],), ()))
+            ok = mu is not None and sd is not None and mu[0] == 'elem' and \
+                sd[0] == 'elem' and mu[2] == sd[2] and \
+                bool(calls_in(mu[1], 'center_find')) and \
+                c0.equal(sd[1], intern(('bin', '*', P['xy_uncertainty_pixels'], sp)))
+            detail = 'Gaussian(mu=%s, sd=%s)' % (show(mu)[:60] if mu else None,
+                                                 show(sd)[:60] if sd else None)
+        if ok:
+            okz = zp[0] == 'new' and zp[1].endswith('Uniform') and zp[2] and \
+                zp[2][0][0] == 'star'
+            if okz:
+                rng = zp[2][0][1]
+                zu = P['z_range_units']
+                ext = intern(('call', MD + 'get_extents', (P['im'],), ()))
+                mx = intern(('call', 'max', (('idx', ext, ('const', 'x')),
+                                             ('idx', ext, ('const', 'y'))), ()))
+                auto = None
+                if rng[0] == 'ite' and rng[1] == ('cmp', 'is not', zu, NONE) and \
+                        rng[2] == zu:
+                    auto = rng[3]
+                elif rng[0] == 'ite' and rng[1] == ('cmp', 'is', zu, NONE) and \
+                        rng[3] == zu:
+                    auto = rng[2]
+                okz = auto is not None and auto[0] == 'tuple' and len(auto[1]) == 2 and \
+                    auto[1][0] == num(0) and (
+                        c0.equal(auto[1][1], intern(('bin', '*', mx, P['z_range_extents'])))
+                        or c0.equal(auto[1][1], intern(('bin', '*', (
+                            'call', 'max', (mx[2][1], mx[2][0]), ()),
+                            P['z_range_extents']))))
+            ok = okz
+            detail = 'z prior %s' % show(zp)[:160]
+    check.require(ok, 'T6-center-priors-structure', 'make_center_priors',
+                  'x, y: Gaussian(mean = found centre_i, sd = uncertainty * spacing_i); '
+                  'z: Uniform over z_range_units if given, else (0, larger image extent '
+                  '* z_range_extents)', loc, fail_detail=detail)
+
+
+def bg_correct_guards(check, prog):
+    """bg_correct refuses exactly the mismatched inputs and fills in only a
+    missing noise level."""
+    from .common import norm_cond
+    q = IP + 'bg_correct'
+    fd = prog.func(q)
+    loc = prog.loc(q, fd)
+    raw, bg, df = [sym(a.arg) for a in fd.args.args[:3]]
+    it = Interp(prog, max_depth=1, opaque=[
+        MD + 'copy_metadata', IP + 'zero_filter', MD + 'update_metadata',
+        MD + 'get_spacing'])
+    res = it.analyze(q)
+    ok = len(res.raises) == 1 and 'BadImage' in show(res.raises[0].value)
+    if ok:
+        cs = norm_cond(res.raises[0].cond)
+        ok = len(cs) == 1 and cs[0][1] is False
+        if ok:
+            t = cs[0][0]
+            eqs = [x for x in subterms(t) if x[0] == 'cmp' and x[1] == '==']
+            shapes = [x for x in eqs if any(y[0] == 'attr' and y[2] == 'shape'
+                                            for y in (x[2], x[3]))]
+            spac = [x for x in eqs if calls_in(x, MD + 'get_spacing')]
+            neg = [x for x in subterms(t) if x[0] == 'un' and x[1] == 'not'] + \
+                [x for x in subterms(t) if x[0] == 'bool' and x[1] == 'or'] + \
+                [x for x in subterms(t) if x[0] == 'cmp' and x[1] == '!=']
+            ok = len(shapes) == 2 and len(spac) == 2 and not neg and \
+                len(eqs) == 4
+    check.require(ok, 'T3-bg-correct', 'bg_correct refusal',
+                  'BadImage iff the three images do not all share shape and spacing',
+                  loc, fail_detail='raises under %s' % [
+                      [(show(t)[:100], p) for t, p in o.cond] for o in res.raises])
+    v = res.ret
+    ok = v[0] == 'ite' and v[1][0] == 'bool' and v[1][1] == 'and'
+    if ok:
+        plain = v[3]
+        filled = v[2]
+        conds = set(v[1][2])
+        want = {intern(('call', 'hasattr', (plain, ('const', 'noise_sd')), ())),
+                intern(('call', 'hasattr', (bg, ('const', 'noise_sd')), ())),
+                intern(('cmp', 'is', ('attr', plain, 'noise_sd'), NONE))}
+        ok = conds == want and plain[0] == 'call' and plain[1] == MD + 'copy_metadata' \
+            and plain[2][0] == raw and filled == (
+                'call', MD + 'update_metadata', (plain,),
+                (('noise_sd', ('attr', bg, 'noise_sd')),))
+    check.require(ok, 'T3-bg-correct', 'bg_correct noise level',
+                  'the corrected image carries raw\'s metadata; only a missing noise '
+                  'level is taken over from the background', loc,
+                  fail_detail='returns %s' % show(v)[:200])
